@@ -8,7 +8,7 @@ claim('C12',
       'engine are trusted, every model is replayed natively.',
       'symbolic execution of the real code with z3 (minisym), validity queries per path', 'DESIGN.md §4 C12')
 _todo = ('check not built yet in this round; see DESIGN.md §8 build order')
-for _p in ['C01', 'C02', 'C03', 'C04', 'C05', 'C06', 'C07', 'C09', 'C11', 'C13', 'C14', 'C15', 'C16', 'C17', 'C20']:
+for _p in ['C01', 'C02', 'C03', 'C04', 'C05', 'C06', 'C07', 'C11', 'C13', 'C14', 'C15', 'C16', 'C17', 'C20']:
     na(_p, _todo)
 na('C19', 'PYTHONHASHSEED / process effects live in CPython C code and start-up, not reachable by symbolic execution of '
           'chython; modelling set order as arbitrary would over-approximate and raise false alarms (DESIGN.md C19)')
@@ -45,3 +45,15 @@ claim('C10',
       'Cython semantics (validated against 4200 published packs and native replay of every model), z3, zlib.',
       'symbolic execution of the .pyx sources (cysym) + real Python wrappers (minisym) with z3; QF_BV / QF_FP queries',
       'DESIGN.md §4 C10')
+claim('C09',
+      'The compiled matcher is executed from the current _isomorphism.pyx text (cysym: packed structs read from the byte '
+      'buffers, C unsigned arithmetic) on buffers produced by the real mask builders, through the public '
+      'query.get_mapping(mol) with both settings of _cython: mapping sets are equal for one query atom (all four kinds) '
+      'against one atom with every attribute symbolic as bit-vectors, for every element pair (118 x 118) and any-metal x 118, '
+      'for symbolic bond order lists / ring marks, and for whole searches on small shapes with every atom label and bond '
+      'order symbolic, where they also equal a brute-force enumeration; Struct formats equal the packed struct layouts.',
+      'Bounded: listed element classes, constraint lists of length 0 or 2 (quick), ring sizes over {3,6,65,66}, search shapes '
+      '<= 3/4 atoms (quick) or 4/5 (thorough); documented exclusions (Lv/Ts/Og merge, ring sizes > 65, H > 4); one recorded '
+      'finding (unknown hydrogen count encoded as zero); trusted: vlib/cysym.py as Cython semantics, z3.',
+      'symbolic execution of the .pyx source (cysym) and of the real Python mask builders / reference matcher (minisym) '
+      'with z3 bit-vector queries', 'DESIGN.md §4 C09')
